@@ -30,7 +30,7 @@ def run(prog, rep, tier):
     pop = [r for r in rets if r.value[0] == "new" and r.value[1].endswith("NormalDistribution")]
     fin = [r for r in rets if r.value[0] == "method" and r.value[2] == "sample"]
     if len(pop) != 1 or len(fin) != 1 or len(rets) != 2:
-        rep.bad("SAME-OBJECT", fwhere(f), "LGANM.sample must return either the distribution or distribution.sample(...): found %d returns" % len(rets))
+        rep.bad_form("SAME-OBJECT", fwhere(f), "LGANM.sample must return either the distribution or distribution.sample(...): found %d returns" % len(rets))
     else:
         same = fin[0].value[1] == pop[0].value
         rep.check("SAME-OBJECT", same, fwhere(f, fin[0].node), "the finite sample is drawn from the very distribution returned in population mode",
@@ -52,7 +52,7 @@ def run(prog, rep, tier):
     model_history(rep, S2, f2, {"mean", "covariance", "p"}, "HISTORY.normal")
     draws = [c for c in S2.select("call", qname=f2.qname) if c.callkind == "ext" and c.target in api.GLOBAL_DRAWS]
     if len(draws) != 1 or draws[0].target != "numpy.random.multivariate_normal":
-        rep.bad("SLOTS.mvn", fwhere(f2), "NormalDistribution.sample must draw once with numpy.random.multivariate_normal (found %s)" % [d.target for d in draws])
+        rep.bad_form("SLOTS.mvn", fwhere(f2), "NormalDistribution.sample must draw once with numpy.random.multivariate_normal (found %s)" % [d.target for d in draws])
     else:
         c = draws[0]
         b, extra = api.bind_slots(api.SLOTS[c.target], c.args, c.kwargs)
